@@ -156,6 +156,9 @@ func genAst(rng *rand.Rand, n, depth int) gAst {
 		if b-a > 60 {
 			b = a + rng.Intn(60)
 		}
+		if rng.Intn(8) == 0 { // a span of one base, often partial: n..n, <n..n, n..>n
+			return gAst{kind: "span", a: a, b: a, p5: rng.Intn(2) == 0, p3: rng.Intn(3) == 0}
+		}
 		return gAst{kind: "span", a: a, b: b, p5: rng.Intn(6) == 0, p3: rng.Intn(6) == 0}
 	}
 	if rng.Intn(3) == 0 {
